@@ -133,7 +133,11 @@ pub fn realise_mesh(s: &MeshSeed, table: &[(u8, u8)], canonical: bool) -> MeshSp
         if off + type_size(t) > 255 {
             off = extent[st];
         }
-        elements[i] = Element { stream: st as u8, offset: off as u8, ty: t, usage: u, usage_index: 0 };
+        // one element in six carries a usage index other than 0 although it is the only element of its usage (UV
+        // excepted, where the index selects the set): what is decoded depends on stream, offset, stride and type
+        let (_, _, _, _, key) = chosen[i];
+        let usage_index = if u != U_UV && key % 6 == 0 { 1 + (key / 6 % 3) as u8 } else { 0 };
+        elements[i] = Element { stream: st as u8, offset: off as u8, ty: t, usage: u, usage_index };
         extent[st] = off + type_size(t);
     }
     // every fifth mesh with a four-component UV element also declares a second, two-component UV element with
@@ -167,6 +171,7 @@ pub fn realise_mesh(s: &MeshSeed, table: &[(u8, u8)], canonical: bool) -> MeshSp
     // elements (usage indices 1, 2, ...) that carry the same bytes as the first one, so that parse and write agree on
     // them whichever of the copies a reader reports
     if canonical && s.seed % 11 == 0 && pairs_for(U_COLOR, table).contains(&T_BYTEFLOAT4) {
+        elements.iter_mut().filter(|e| e.usage == U_COLOR).for_each(|e| e.usage_index = 0);
         if !elements.iter().any(|e| e.usage == U_COLOR) && extent[0] + 4 <= 255 {
             elements.push(Element { stream: 0, offset: extent[0] as u8, ty: T_BYTEFLOAT4, usage: U_COLOR, usage_index: 0 });
             extent[0] += 4;
